@@ -7,6 +7,11 @@ HOOK_COMMITS = subprocess.run(
     capture_output=True, text=True).stdout.strip().splitlines()
 
 CHECKS = {
+ "C19": dict(
+   text="Python discrete-event simulation (stdlib only, same tape / shrinking / replay protocol as the Go harness) of the real FailSafe, TrafficFilter, configuration and RequestsHook wrapper, configured through the documented environment variables and the package's own wiring functions: seeded histories of calls (gateway success, gateway-side failure, application exceptions, failing direct calls), filter probes with arbitrary host strings, scripted DNS (public / private / loopback / failure), a patched clock with advances around the cool-down end, and in-flight calls during which other calls open the breaker. Reference circuit breaker judges every transition (R2 open at the threshold of consecutive gateway failures, R3 cool-down), routing (R1), exception propagation (R4) and the traffic filter incl. 'never raises' (R5). Sampling, not proof.",
+   design_ref="DESIGN.md section 4 C19",
+   note="Trusted: stub requests/yarl modules and the scripted resolver; concurrency is simulated by re-entrancy, Python threads are not scheduled; one open known finding (failure count cleared by calls that bypass the gateway).",
+   technique="deterministic simulation: seeded call/fault/clock histories against a reference circuit breaker (Python discrete-event loop with choice tape)"),
  "C15": dict(
    text="Seeded simulation of the real discovery aggregation (discovery.Run, State persistence, BuildTree with a small convergence threshold): one generated access-log stream is delivered as a single batch and again under seeded batch splits (incl. empty and singleton batches), half of them with restarts between batches after which only the state file survives (new State from the file, new URL tree). Oracles: R1 conservation (endpoint counts = non-internal records = status sums, also per consumer), R2 batch invariance against the single-batch result (keys, counts, status maps, min/max exactly, averages within 1e-3), R3 a 30-line reference aggregator keyed by the final tree's normalisation, R4 totals and per-method totals preserved across restarts. Sampling, not proof.",
    design_ref="DESIGN.md section 4 C15",
